@@ -680,9 +680,14 @@ def _decorate_fn_or_cls(decorator,
     decorated_class = cls
     construction_fn = _find_class_construction_fn(decorated_class)
     decorated_fn = decorator(_ensure_wrappability(construction_fn))
-    if construction_fn.__name__ == '__new__':
+    # The attribute it was found under; the function's own name may be another
+    # (`__init__ = _shared_init`).
+    attr_name = next(
+        name for base in inspect.getmro(decorated_class)
+        for name in ('__init__', '__new__') if name in base.__dict__)
+    if attr_name == '__new__':
       decorated_fn = staticmethod(decorated_fn)
-    setattr(decorated_class, construction_fn.__name__, decorated_fn)
+    setattr(decorated_class, attr_name, decorated_fn)
   return decorated_class
 
 
